@@ -8,12 +8,13 @@ PROPERTY = "C20"
 META = dict(
     level="proof",
     bounds="(a) time grids in IEEE-754 double (z3 QF_FP, round-to-nearest-even), bit-precise: the grid law of each solver is read from its source by AST "
-           "(np.arange(t0, t1 + dt, dt) grids: Moreau, ScipyIVP, ScipyDAE; step loops over np.arange(t0, t1, dt) with accumulated tn + dt: Rattle, "
-           "BackwardEuler, DualStormerVerlet), t0 = 0, 1e-3 <= dt <= 1, t0 < t1 <= 10, at most 5 (quick) / 16 (thorough) grid points, one query per grid law and clause, every model replayed on every solver using that law; (b) row counts of all "
-           "stored fields on concrete runs of every solver; (c) Solution.__iter__ on symbolic field entries, nt in 1..3, widths 0..2.  Outside: "
+           "(np.arange(t0, t1 + dt, dt) grids: Moreau, ScipyIVP, ScipyDAE; step loops with accumulated tn + dt whose step count is TRANSLATED from the "
+           "loop's iterable (np.arange(a, b, c), range(n) with n built from + - * /, int, round, ceil, floor, len(np.arange)): Rattle, "
+           "BackwardEuler, DualStormerVerlet); exact clauses (known finding) and half-step-tolerant clauses (hold on the current tree), t0 = 0, 1e-3 <= dt <= 1, t0 < t1 <= 10, at most 5 (quick) / 16 (thorough) grid points, one query per grid law and clause, every model replayed on every solver using that law; (b) row counts of all "
+           "stored fields on concrete complete runs of every solver and on every fault schedule (truncated runs) explored as in C21; (c) Solution.__iter__ on symbolic field entries, nt in 1..3, widths 0..2.  Outside: "
            "save/load (dill file I/O), adaptive grids inside scipy's integrators beyond t_eval.",
     assumptions=["numpy.arange law: len = ceil((stop - start) / step) in double, x_i = start + i * ((start + step) - start)",
-                 "the source pattern of each grid construction is recognised by AST (a changed pattern is reported as a harness error, not as a pass)"],
+                 "a grid construction outside the translator's expression language is not encoded: the real solver is then run on class representatives chosen by the solver and a reproduced gross violation is reported, anything else is a harness error, never a pass"],
     trusted_base=["z3 floating-point theory"],
 )
 
@@ -21,32 +22,152 @@ SOLVER_FILES = dict(Moreau="moreau.py", ScipyIVP="scipy_ivp.py", ScipyDAE="scipy
                     DualStormerVerlet="dual_stormer_verlet.py")
 
 
-def grid_law(solver):
-    """'A' if the solver builds its grid with np.arange(t0, t1 + dt, dt); 'B' if it loops over np.arange(t0, t1, dt) and accumulates tn + dt"""
+class Unrecognised(Exception):
+    pass
+
+
+def _solver_source(solver):
     import cardillo.solver as S
     path = os.path.join(os.path.dirname(S.__file__), SOLVER_FILES[solver])
-    tree = ast.parse(open(path).read())
-    laws = set()
-    for node in ast.walk(tree):
-        if isinstance(node, ast.Call) and isinstance(node.func, ast.Attribute) and node.func.attr == "arange" and len(node.args) == 3:
-            a = [ast.unparse(x).replace("self.", "") for x in node.args]
+    return path, ast.parse(open(path).read())
+
+
+def _name(node):
+    return ast.unparse(node).replace("self.", "")
+
+
+def _solve_assignments(tree, solver):
+    """name -> value AST for simple assignments in the solver class (constructor and solve), last one wins"""
+    env = {}
+    for cls in [n for n in ast.walk(tree) if isinstance(n, ast.ClassDef) and n.name == solver]:
+        for node in ast.walk(cls):
+            if isinstance(node, ast.Assign) and len(node.targets) == 1 and isinstance(node.targets[0], (ast.Name, ast.Attribute)):
+                env[_name(node.targets[0])] = node.value
+    return env
+
+
+def grid_law(solver):
+    """('A', None): grid = np.arange(t0, t1 + dt, dt) built in the constructor;  ('B', count AST): solve() loops over an iterable whose length is
+    the number of steps and accumulates tn + dt.  Read from the solver's source on every run."""
+    path, tree = _solver_source(solver)
+    env = _solve_assignments(tree, solver)
+    # law A: a stored grid self.t / self.t_eval = np.arange(t0, t1 + dt, dt)
+    for key in ("t", "t_eval"):
+        v = env.get(key)
+        if isinstance(v, ast.Call) and _name(v.func) in ("np.arange", "arange") and len(v.args) == 3:
+            a = [_name(x) for x in v.args]
             if a[0] == "t0" and a[2] == "dt" and a[1] in ("t1 + dt", "t1+dt"):
-                laws.add("A")
-            elif a[0] == "t0" and a[2] == "dt" and a[1] == "t1":
-                laws.add("B")
-            else:
-                laws.add("?" + ",".join(a))
-    if len(laws) != 1 or next(iter(laws)).startswith("?"):
-        raise RuntimeError(f"unrecognised time-grid construction in {path}: {sorted(laws)}")
-    return next(iter(laws))
+                return ("A", None)
+            raise Unrecognised(f"{path}: stored grid np.arange({', '.join(a)})")
+    # law B: the step loop of solve()
+    for cls in [n for n in ast.walk(tree) if isinstance(n, ast.ClassDef) and n.name == solver]:
+        for fn in [n for n in cls.body if isinstance(n, ast.FunctionDef) and n.name == "solve"]:
+            loops = [n for n in ast.walk(fn) if isinstance(n, ast.For) and _name(n.target) == "_"]
+            if len(loops) == 1:
+                return ("B", _resolve_iterable(loops[0].iter, env, path))
+    raise Unrecognised(f"{path}: no time grid / step loop found")
 
 
-def grid(h, law="A", clause="short", maxpts=8):
+def _resolve_iterable(node, env, path, depth=0):
+    if depth > 6:
+        raise Unrecognised(f"{path}: iterable too deep")
+    if isinstance(node, (ast.Name, ast.Attribute)) and _name(node) in env:
+        return _resolve_iterable(env[_name(node)], env, path, depth + 1)
+    if isinstance(node, ast.Call) and _name(node.func) == "tqdm" and node.args:
+        return _resolve_iterable(node.args[0], env, path, depth + 1)
+    if isinstance(node, ast.Call) and _name(node.func) in ("np.arange", "arange") and len(node.args) == 3:
+        return ("arange", node.args, env)
+    if isinstance(node, ast.Call) and _name(node.func) == "range" and len(node.args) == 1:
+        return ("range", node.args[0], env)
+    raise Unrecognised(f"{path}: step loop over {ast.unparse(node)}")
+
+
+def law_key(law):
+    """hashable description of a grid law (solvers with the same key share one solver query)"""
+    kind, it = law
+    if kind == "A":
+        return "A"
+    if it[0] == "arange":
+        return "B:arange(" + ", ".join(_name(x) for x in it[1]) + ")"
+    return "B:range(" + _expand(it[1], it[2]) + ")"
+
+
+def _expand(node, env, depth=0):
+    if isinstance(node, (ast.Name, ast.Attribute)) and _name(node) in env and _name(node) not in ("t0", "t1", "dt") and depth < 6:
+        return _expand(env[_name(node)], env, depth + 1)
+    return _name(node)
+
+
+def _fp(node, env, sym, depth=0):
+    """translate a float / count expression of the solver source into z3 floating point (double, RNE)"""
+    import z3
+    F, rm = z3.Float64(), z3.RNE()
+    if depth > 12:
+        raise Unrecognised("expression too deep")
+    if isinstance(node, ast.Constant) and isinstance(node.value, (int, float)):
+        return z3.FPVal(float(node.value), F)
+    if isinstance(node, (ast.Name, ast.Attribute)):
+        nm = _name(node)
+        if nm in sym:
+            return sym[nm]
+        if nm in env:
+            return _fp(env[nm], env, sym, depth + 1)
+        raise Unrecognised(f"unknown name {nm}")
+    if isinstance(node, ast.BinOp) and isinstance(node.op, (ast.Add, ast.Sub, ast.Mult, ast.Div)):
+        a, b = _fp(node.left, env, sym, depth + 1), _fp(node.right, env, sym, depth + 1)
+        return {ast.Add: z3.fpAdd, ast.Sub: z3.fpSub, ast.Mult: z3.fpMul, ast.Div: z3.fpDiv}[type(node.op)](rm, a, b)
+    if isinstance(node, ast.UnaryOp) and isinstance(node.op, ast.USub):
+        return z3.fpNeg(_fp(node.operand, env, sym, depth + 1))
+    if isinstance(node, ast.Call):
+        f = _name(node.func)
+        if f in ("int",) and len(node.args) == 1:
+            return z3.fpRoundToIntegral(z3.RTZ(), _fp(node.args[0], env, sym, depth + 1))
+        if f in ("np.round", "round", "np.rint", "np.around") and len(node.args) == 1:
+            return z3.fpRoundToIntegral(z3.RNE(), _fp(node.args[0], env, sym, depth + 1))
+        if f in ("np.ceil", "math.ceil", "ceil") and len(node.args) == 1:
+            return z3.fpRoundToIntegral(z3.RTP(), _fp(node.args[0], env, sym, depth + 1))
+        if f in ("np.floor", "math.floor", "floor") and len(node.args) == 1:
+            return z3.fpRoundToIntegral(z3.RTN(), _fp(node.args[0], env, sym, depth + 1))
+        if f == "len" and len(node.args) == 1 and isinstance(node.args[0], ast.Call) and _name(node.args[0].func) in ("np.arange", "arange"):
+            a, b, c = [_fp(x, env, sym, depth + 1) for x in node.args[0].args]
+            return z3.fpRoundToIntegral(z3.RTP(), z3.fpDiv(rm, z3.fpSub(rm, b, a), c))
+        if f in ("float", "np.float64") and len(node.args) == 1:
+            return _fp(node.args[0], env, sym, depth + 1)
+    raise Unrecognised(f"expression {ast.unparse(node)}")
+
+
+def step_count_fp(law, sym):
+    """number of steps of a law-B solver as a z3 double"""
+    import z3
+    rm = z3.RNE()
+    kind, it = law
+    if it[0] == "arange":
+        a, b, c = [_fp(x, it[2], sym) for x in it[1]]
+        return z3.fpRoundToIntegral(z3.RTP(), z3.fpDiv(rm, z3.fpSub(rm, b, a), c))       # numpy: len = ceil((stop - start) / step)
+    return _fp(it[1], it[2], sym)
+
+
+def solvers_by_law():
+    groups, errors = {}, {}
+    for sv in SOLVER_FILES:
+        try:
+            law = grid_law(sv)
+            groups.setdefault(law_key(law), (law, []))[1].append(sv)
+        except Unrecognised as e:
+            errors[sv] = str(e)
+    return groups, errors
+
+
+def grid(h, key="A", clause="short", maxpts=8):
     """one bit-precise query per grid law; the model is replayed on every solver whose source uses that law"""
-    solvers = [s for s in SOLVER_FILES if grid_law(s) == law]
-    if not solvers:
-        h.holds(f"no solver uses grid law {law}", True)
+    groups, errors = solvers_by_law()
+    if key not in groups:
+        h.holds(f"no solver uses grid law {key}", True)
         return
+    law, solvers = groups[key]
+    exact = {"short": "grid ends at or after the final time", "over": "the last but one grid point is before the final time"}[clause]
+    tolerant = {"short": "grid reaches the final time up to half a step: t[-1] > t1 - dt/2",
+                "over": "grid does not run past the final time by more than half a step: t[-2] < t1 + dt/2"}[clause]
     if h.sym:
         import z3
         from symx import core
@@ -58,7 +179,8 @@ def grid(h, law="A", clause="short", maxpts=8):
         core.CTX.input_kind["t1"] = core.CTX.input_kind["dt"] = "fp"
         t0 = c(0.0)
         core.CTX.assumes += [dt >= c(1e-3), dt <= c(1.0), t1 > t0, t1 <= c(10.0), z3.Not(z3.fpIsNaN(t1)), z3.Not(z3.fpIsNaN(dt))]
-        if law == "A":
+        half = z3.fpMul(rm, c(0.5), dt)
+        if law[0] == "A":
             stop = z3.fpAdd(rm, t1, dt)
             n = z3.fpRoundToIntegral(z3.RTP(), z3.fpDiv(rm, z3.fpSub(rm, stop, t0), dt))
             core.CTX.assumes += [n >= c(2.0), n <= c(float(maxpts))]
@@ -67,42 +189,83 @@ def grid(h, law="A", clause="short", maxpts=8):
             prev = z3.fpAdd(rm, t0, z3.fpMul(rm, z3.fpSub(rm, n, c(2.0)), delta))
             if clause == "short":
                 h.holds("grid ends at or after the final time: t[-1] >= t1", last >= t1)
+                h.holds(tolerant, last > z3.fpSub(rm, t1, half))
             else:
                 h.holds("grid ends at the FIRST point at or after the final time: t[-2] < t1", prev < t1)
+                h.holds(tolerant, prev < z3.fpAdd(rm, t1, half))
         else:
-            nst = z3.fpRoundToIntegral(z3.RTP(), z3.fpDiv(rm, z3.fpSub(rm, t1, t0), dt))     # number of steps
-            core.CTX.assumes += [nst >= c(1.0), nst <= c(float(maxpts - 1))]
+            nst = step_count_fp(law, dict(t0=t0, t1=t1, dt=dt))     # number of steps, from the solver's own expression
+            core.CTX.assumes += [nst >= c(0.0), nst <= c(float(maxpts - 1))]
             # accumulated times tn + dt, unrolled up to the bound
             acc = [t0]
             for k in range(maxpts - 1):
                 acc.append(z3.fpAdd(rm, acc[-1], dt))
-            for k in range(1, maxpts):
+            for k in range(0, maxpts):
                 is_k = (nst == c(float(k)))
                 if clause == "short":
-                    h.holds(f"{k} steps: grid ends at or after the final time", z3.Implies(is_k, acc[k] >= t1), idx=k)
-                else:
+                    if k >= 1:
+                        h.holds(f"{k} steps: grid ends at or after the final time", z3.Implies(is_k, acc[k] >= t1), idx=k)
+                    h.holds(f"{k} steps: {tolerant}", z3.Implies(is_k, acc[k] > z3.fpSub(rm, t1, half)), idx=k)
+                elif k >= 1:
                     h.holds(f"{k} steps: the last but one grid point is before the final time", z3.Implies(is_k, acc[k - 1] < t1), idx=k)
+                    h.holds(f"{k} steps: {tolerant}", z3.Implies(is_k, acc[k - 1] < z3.fpAdd(rm, t1, half)), idx=k)
         return
     # ---- float replay on the real solvers
     t1, dt = h.real("t1"), h.real("dt")
     grids = {sv: real_grid(sv, t1, dt) for sv in solvers}
     if any(len(t) > maxpts + 1 for t in grids.values()):
         h.assume(False, "more grid points than the bound")
-    if law == "A":
+    info = lambda bad: f"violated by {bad} at t1={t1!r} dt={dt!r}: t={[float(x) for x in grids[solvers[0]]]}"
+    if law[0] == "A":
         if clause == "short":
             bad = [sv for sv, t in grids.items() if not t[-1] >= t1]
-            h.holds("grid ends at or after the final time: t[-1] >= t1", not bad, info=f"violated by {bad} at t1={t1!r} dt={dt!r}: t={[float(x) for x in grids[solvers[0]]]}")
+            h.holds("grid ends at or after the final time: t[-1] >= t1", not bad, info=info(bad))
+            bad = [sv for sv, t in grids.items() if not t[-1] > t1 - 0.5 * dt]
+            h.holds(tolerant, not bad, info=info(bad))
         else:
             bad = [sv for sv, t in grids.items() if not t[-2] < t1]
-            h.holds("grid ends at the FIRST point at or after the final time: t[-2] < t1", not bad, info=f"violated by {bad} at t1={t1!r} dt={dt!r}: t={[float(x) for x in grids[solvers[0]]]}")
+            h.holds("grid ends at the FIRST point at or after the final time: t[-2] < t1", not bad, info=info(bad))
+            bad = [sv for sv, t in grids.items() if not t[-2] < t1 + 0.5 * dt]
+            h.holds(tolerant, not bad, info=info(bad))
     else:
-        for kk in range(1, maxpts):
+        for kk in range(0, maxpts):
             if clause == "short":
-                bad = [sv for sv, t in grids.items() if len(t) - 1 == kk and not t[-1] >= t1]
-                h.holds(f"{kk} steps: grid ends at or after the final time", not bad, idx=kk, info=f"violated by {bad} at t1={t1!r} dt={dt!r}")
-            else:
+                if kk >= 1:
+                    bad = [sv for sv, t in grids.items() if len(t) - 1 == kk and not t[-1] >= t1]
+                    h.holds(f"{kk} steps: grid ends at or after the final time", not bad, idx=kk, info=info(bad))
+                bad = [sv for sv, t in grids.items() if len(t) - 1 == kk and not t[-1] > t1 - 0.5 * dt]
+                h.holds(f"{kk} steps: {tolerant}", not bad, idx=kk, info=info(bad))
+            elif kk >= 1:
                 bad = [sv for sv, t in grids.items() if len(t) - 1 == kk and not t[-2] < t1]
-                h.holds(f"{kk} steps: the last but one grid point is before the final time", not bad, idx=kk, info=f"violated by {bad} at t1={t1!r} dt={dt!r}")
+                h.holds(f"{kk} steps: the last but one grid point is before the final time", not bad, idx=kk, info=info(bad))
+                bad = [sv for sv, t in grids.items() if len(t) - 1 == kk and not t[-2] < t1 + 0.5 * dt]
+                h.holds(f"{kk} steps: {tolerant}", not bad, idx=kk, info=info(bad))
+
+
+def grid_fallback(h, solver="Rattle", cls="low", k=2, why=""):
+    """fallback for a grid construction the translator does not cover: the real solver is RUN on inputs the solver picks from a class of the
+    specification ((t1 - t0)/dt = k + f with f in (0.1, 0.4) / (0.6, 0.9), or an exactly representable multiple) and only the half-step-tolerant
+    clauses are judged.  Symbolically the clauses are left open (stated as false under the class assumptions): a model that does not reproduce on
+    the real code ends as a harness error ("cannot be encoded, no violation found on the class representatives"), never as a pass."""
+    t1, dt = h.real("t1"), h.real("dt")
+    if cls == "exact":
+        h.assume_eq(dt, 0.125, "dt exactly representable")
+        h.assume_eq(t1, 0.125 * k, "t1 an exact multiple")
+    else:
+        lo, hi = (0.1, 0.4) if cls == "low" else (0.6, 0.9)
+        h.assume(dt >= 0.01, "dt >= 0.01")
+        h.assume(dt <= 1.0, "dt <= 1")
+        h.assume(t1 >= (k + lo) * dt, "class lower bound")
+        h.assume(t1 <= (k + hi) * dt, "class upper bound")
+    names = ("grid reaches the final time up to half a step: t[-1] > t1 - dt/2", "grid does not run past the final time by more than half a step: t[-2] < t1 + dt/2")
+    if h.sym:
+        h.note(f"unrecognised grid construction ({why}): clauses left open, decided by running the real solver on class representatives")
+        for nm in names:
+            h.holds(nm, False)
+        return
+    t = real_grid(solver, t1, dt)
+    h.holds(names[0], bool(t[-1] > t1 - 0.5 * dt), info=f"{solver} t1={t1!r} dt={dt!r} t={[float(x) for x in t]}")
+    h.holds(names[1], bool(len(t) < 2 or t[-2] < t1 + 0.5 * dt), info=f"{solver} t1={t1!r} dt={dt!r} t={[float(x) for x in t]}")
 
 
 def _tiny_system():
@@ -166,6 +329,13 @@ def rows(h, solver="Moreau"):
     h.holds("iterating yields one record per instant", n == nt)
 
 
+def rows_faulty(h, solver="BackwardEuler", system="contact", cont=False):
+    """row counts on every fault schedule of the real solve() (fault-injected convergence decisions, see C21): a truncated run still has one
+    row per stored instant in every field"""
+    from checks import c21
+    c21.schedule(h, solver=solver, system=system, cont=cont, only_rows=True)
+
+
 def iterate(h, nt=2, wq=2, wu=1, with_none=True):
     """Solution.__iter__ with symbolic entries: one record per instant, each field equal to the corresponding row"""
     from cardillo.solver import Solution
@@ -193,10 +363,26 @@ def cases(tier, seed):
     T = 45 if tier == "quick" else 1500
     maxpts = 5 if tier == "quick" else 16
     cs = []
-    for law in ("A", "B"):
+    groups, errors = solvers_by_law()
+    other = 0
+    for key in sorted(groups):
+        if key == "A" or key == "B:arange(t0, t1, dt)":
+            label = key[0]
+        else:
+            other += 1
+            label = f"B{other}"
         for clause in ("short", "over"):
-            cs.append(Case(f"grid/law{law}/{clause}", grid, dict(law=law, clause=clause, maxpts=maxpts), timeout=T, hard=T * 12,
+            cs.append(Case(f"grid/law{label}/{clause}", grid, dict(key=key, clause=clause, maxpts=maxpts), timeout=T, hard=T * 12,
                            sentinel=False, pin_tries=0, crosscheck=False))
+    for sv, why in sorted(errors.items()):
+        for cls in ("low", "high", "exact"):
+            for k in (1, 2, 3):
+                cs.append(Case(f"grid/unrecognised/{sv}/{cls}/k{k}", grid_fallback, dict(solver=sv, cls=cls, k=k, why=why[-120:]), timeout=30,
+                               sentinel=False, crosscheck=False))
+    for solver in ("BackwardEuler", "Rattle", "Moreau", "DualStormerVerlet", "Newton"):
+        for system in (("smooth",) if solver == "Newton" else ("contact", "smooth")):
+            cs.append(Case(f"rows_faulty/{solver}/{system}", rows_faulty, dict(solver=solver, system=system, cont=False), timeout=30,
+                           max_paths=(128 if tier == "quick" else 1024), max_depth=64, patch=False, sentinel=False, hard=1200))
     for solver in ("Moreau", "Rattle", "BackwardEuler", "DualStormerVerlet", "ScipyIVP", "ScipyDAE", "Newton"):
         cs.append(Case(f"rows/{solver}", rows, dict(solver=solver), timeout=30, patch=False, sentinel=False))
     for nt in (1, 2, 3):
